@@ -152,6 +152,15 @@ def check_race(case, r, obs, expect_success=True):
                     if cb == leaf["name"] and named_task_wraps(case):
                         sig = KNOWN_QUEUED
                     obs.check(n >= 1, sig, f"element {el_i} task {leaf['name']} client {ci} issued no request")
+                    if n >= 1:
+                        # a time-based task that is not cut short by completed-by runs until its warm-up + time period has elapsed
+                        qs = groups[(leaf["name"], ci)]
+                        due = qs[0]["t_enter"] + (leaf.get("warmup_time_period") or 0) + leaf["time_period"]
+                        obs.check(
+                            qs[-1]["t_exit"] >= due - TOL,
+                            "time-based-task-stopped-early",
+                            f"element {el_i} task {leaf['name']} client {ci}: last request ended at {qs[-1]['t_exit']:.4f}, its period ends at {due:.4f}",
+                        )
         if cb == "any":
             # the first finisher runs its full specification: at least one client of the element completed all its iterations
             finished = False
